@@ -9,6 +9,7 @@ mod fixedwindow;
 mod fsutil;
 mod jsonline;
 mod levelgate;
+mod cfgformat;
 mod reloadlive;
 mod datezone;
 mod registry;
@@ -34,6 +35,7 @@ fn main() {
         "routing" => routing::main(rest),
         "cfgbuild" => cfgbuild::main(rest),
         "fanout" => fanout::main(rest),
+        "cfgformat" => cfgformat::main(rest),
         "reloadlive" => reloadlive::main(rest),
         "reloadlive-child" => reloadlive::child(rest),
         "datezone" => datezone::main(rest),
